@@ -10,6 +10,25 @@ import traceback
 from . import core
 
 
+def generic_replay(mod, ctx, path):
+    """Checks without a dedicated single-case entry point: print the recorded case (key, observation, input) and re-run the
+    check's enumeration, which contains the recorded case; exit 1 iff the recorded root-cause key is raised again (as a
+    violation or as a known finding)."""
+    import json
+    rec = json.load(open(path))
+    print("recorded key : %s" % rec.get("key"))
+    print("recorded what: %s" % str(rec.get("what"))[:1500])
+    print("recorded input: %s" % str(rec.get("replay"))[:3000])
+    ctx._known = []          # every key is reported as such during a replay
+    mod.run(ctx)
+    hit = [(k, w) for k, w, _ in ctx.violations if k == rec.get("key")]
+    for k, w in hit:
+        print("REPRODUCED %s\n  %s" % (k, w[:1500]))
+    if not hit:
+        print("not reproduced: the enumeration (tier %s) no longer raises the recorded key" % ctx.tier)
+    return 1 if hit else 0
+
+
 def main(argv=None):
     ap = argparse.ArgumentParser()
     ap.add_argument("pid")
@@ -24,10 +43,9 @@ def main(argv=None):
     mod = importlib.import_module("mc.checks." + a.pid)
     ctx = core.Ctx(a.pid, tier, seed, getattr(mod, "LEVEL", "exploration"))
     if a.replay:
-        if not hasattr(mod, "replay"):
-            print("no replay for", a.pid)
-            return 2
-        return mod.replay(ctx, a.replay)
+        if hasattr(mod, "replay"):
+            return mod.replay(ctx, a.replay)
+        return generic_replay(mod, ctx, a.replay)
     try:
         mod.run(ctx)
     except SystemExit:
